@@ -489,6 +489,9 @@ class TvdUnitLimiterIsCentral(AxisOb):
     two faces on that axis are interior faces (the boundary faces are treated by the matrix terms alone)"""
     name = 'convectionTvdRHS/unit_limiter_uniform_is_central'
     props = ('C05',)
+    boundary_cells = True     # also the cells next to the boundary: there the matrix terms treat the boundary face
+                              # (inflow: boundary average) and the correction of that face is zero resp. completes the
+                              # donor value to the average on outflow
 
     def setup(self, w):
         u = w.facevar('u')
@@ -505,11 +508,12 @@ class TvdUnitLimiterIsCentral(AxisOb):
 
     def claims(self, w, S, P, a):
         N = w.N[a]
-        if w.symbolic:
-            if not (CTX.decide(I(P[a]) >= 2) and CTX.decide(I(P[a]) <= N - 1)):
+        if not self.boundary_cells:
+            if w.symbolic:
+                if not (CTX.decide(I(P[a]) >= 2) and CTX.decide(I(P[a]) <= N - 1)):
+                    return []
+            elif not (2 <= P[a] <= N - 1):
                 return []
-        elif not (2 <= P[a] <= N - 1):
-            return []
         lhs = w.apply(S['us'][a], S['phi'], P) - w.vec(S['vs'][a], P)
         rhs = w.apply(S['cs'][a], S['phi'], P)
         # uniform spacing on axis a around P (the two neighbours and P have the same size)
